@@ -24,3 +24,12 @@ Print Assumptions C08_workers_bounded.
 Theorem C08_sequential_iff : forall p, is_sequential p = true <-> p_threads p = NTMax 1.
 Proof. exact is_sequential_iff. Qed.
 Print Assumptions C08_sequential_iff.
+
+From OrxPar Require Import MachineIter MachineIterP MasterIter.
+
+(** the same bound over a by-value iterator source *)
+Theorem C08_workers_bounded_iter : forall (r : Runner) (srclen : nat) (ordered : bool)
+  (stop panics : nat -> bool) (sched : list nat),
+  runner_wf r -> length (iws (imrunp r srclen ordered stop panics sched)) <= m_maxt r.
+Proof. intros r srclen ordered stop panics sched Hw. apply imrun_threads; assumption. Qed.
+Print Assumptions C08_workers_bounded_iter.
